@@ -10,41 +10,41 @@ namespace Scpi
 section
 variable {σ : Type} (I : Iface σ)
 
-theorem invocation_of_resolve_none (call : CommandCall) (h : resolve I call = none) :
+theorem invocation_of_resolve_none (call : CommandCall) (h : resolveCmd I call = none) :
     invocation I call = none := by
-  unfold resolve at h
+  unfold resolveCmd at h
   unfold invocation
-  cases hs : slot call with
+  cases hs : unitSlot call with
   | none => rfl
   | some id =>
     rw [hs] at h
     simp only [Option.bind_some] at h
     simp only [h]
 
-theorem resolve_some_slot (call : CommandCall) (c : Cmd σ) (h : resolve I call = some c) :
-    ∃ id, slot call = some id ∧ I.cmds[id]? = some c := by
-  unfold resolve at h
-  cases hs : slot call with
+theorem resolve_some_slot (call : CommandCall) (c : Cmd σ) (h : resolveCmd I call = some c) :
+    ∃ id, unitSlot call = some id ∧ I.cmds[id]? = some c := by
+  unfold resolveCmd at h
+  cases hs : unitSlot call with
   | none => rw [hs] at h; cases h
   | some id => rw [hs] at h; exact ⟨id, rfl, h⟩
 
-theorem invocation_of_arity (call : CommandCall) (c : Cmd σ) (h : resolve I call = some c)
+theorem invocation_of_arity (call : CommandCall) (c : Cmd σ) (h : resolveCmd I call = some c)
     (hl : call.args.length ≠ c.argTys.length) : invocation I call = none := by
   obtain ⟨id, hs, hc⟩ := resolve_some_slot I call c h
   unfold invocation
   simp only [hs, hc, if_pos hl]
 
-theorem invocation_of_convert_error (call : CommandCall) (c : Cmd σ) (h : resolve I call = some c)
+theorem invocation_of_convert_error (call : CommandCall) (c : Cmd σ) (h : resolveCmd I call = some c)
     (e : Err ⊕ Crash) (hca : convertArgs c.argTys call.args = .error e) : invocation I call = none := by
   obtain ⟨id, hs, hc⟩ := resolve_some_slot I call c h
   unfold invocation
   simp only [hs, hc, hca]
   split <;> rfl
 
-theorem invocation_of_convert_ok (call : CommandCall) (c : Cmd σ) (h : resolve I call = some c)
+theorem invocation_of_convert_ok (call : CommandCall) (c : Cmd σ) (h : resolveCmd I call = some c)
     (hl : call.args.length = c.argTys.length) (tvs : List TVal)
     (hca : convertArgs c.argTys call.args = .ok tvs) :
-    ∃ id, slot call = some id ∧ I.cmds[id]? = some c ∧ invocation I call = some (id, tvs) := by
+    ∃ id, unitSlot call = some id ∧ I.cmds[id]? = some c ∧ invocation I call = some (id, tvs) := by
   obtain ⟨id, hs, hc⟩ := resolve_some_slot I call c h
   refine ⟨id, hs, hc, ?_⟩
   unfold invocation
